@@ -333,6 +333,10 @@ func (m *vmModel) toBoolFunc() *ssa.Function {
 }
 
 func c07ShortCircuit(p *Program, r *Report, m *vmModel, va *evalAnalysis) {
+	c07ShortCircuitAs(p, r, m, va, "C07.R4", false)
+}
+
+func c07ShortCircuitAs(p *Program, r *Report, m *vmModel, va *evalAnalysis, rule string, ternaryOnly bool) {
 	toBool := m.toBoolFunc()
 	if toBool == nil {
 		r.Undecided("C07.R4", "toBool", "vm", "truthiness function not found")
@@ -378,7 +382,12 @@ func c07ShortCircuit(p *Program, r *Report, m *vmModel, va *evalAnalysis) {
 				}
 				if len(b.Preds) == 1 {
 					if iff, ok := b.Preds[0].Instrs[len(b.Preds[0].Instrs)-1].(*ssa.If); ok && vmCallee(iff.Cond, m) == toBool {
-						wantTrue := pth == "node.LHS"
+						// the branch written first in the source (smaller $n in the production) is the one taken when the condition is true
+						thenField := "LHS"
+						if before, ok := m.nm.Before("TernaryOpExpr", "RHS", "LHS"); ok && before {
+							thenField = "RHS"
+						}
+						wantTrue := pth == "node."+thenField
 						onTrue := b.Preds[0].Succs[0] == b
 						if wantTrue == onTrue {
 							controlled = true
@@ -392,9 +401,12 @@ func c07ShortCircuit(p *Program, r *Report, m *vmModel, va *evalAnalysis) {
 		if !controlled && bad == "" {
 			bad = "the evaluated branch is not selected by the truth value of the condition"
 		}
-		r.Check(bad == "", "C07.R4", "TernaryOpExpr|one-branch", site, "exactly one of LHS/RHS is evaluated, selected by toBool(condition)", bad)
+		r.Check(bad == "", rule, "TernaryOpExpr|one-branch", site, "exactly one of LHS/RHS is evaluated, selected by toBool(condition)", bad)
 	} else {
-		r.Undecided("C07.R4", "TernaryOpExpr", "vm", "handler not found")
+		r.Undecided(rule, "TernaryOpExpr", "vm", "handler not found")
+	}
+	if ternaryOnly {
+		return
 	}
 	// || and &&
 	if h := m.handlers["op"]["BinaryOperator"]; h != nil {
